@@ -211,6 +211,23 @@ impl Monitor for M {
                 _ => ctx.rng.range(1, 40),
             }
         } as usize;
+        // 1 stream in 50: several hundred messages whose ids are all different (hundreds of distinct ids of each
+        // kind on both sides of every merge; tables that change their strategy with size show here)
+        let unique_ids = !light && ctx.rng.chance(1, 50);
+        let n = if unique_ids { ctx.rng.range(300, 900) as usize } else { n };
+        if unique_ids {
+            ctx.obs("stream.hundreds_of_distinct_ids");
+        }
+        let id_salt = ctx.rng.below(1_000_000);
+        let id4 = |i: usize, k: u64| -> String {
+            let mut v = ((i as u64) * 7919 + id_salt + k * 500_009) % 1_679_616;
+            let mut s = String::new();
+            for _ in 0..4 {
+                s.push(b"0123456789ABCDEFGHIJKLMNOPQRSTUVWXYZ"[(v % 36) as usize] as char);
+                v /= 36;
+            }
+            s
+        };
         let pool_size = *ctx.rng.pick(&[1usize, 2, 3, 8, 12]);
         // ids that are easily confused: the literal "NONE" (the collector's name for "no ECU id"),
         // ids differing only in trailing blanks, the storage-header pattern
@@ -250,7 +267,15 @@ impl Monitor for M {
             } else {
                 gen_msg(&mut ctx.rng, &o)
             };
-            if !large_pool {
+            if unique_ids {
+                if let Some(x) = m.extended_header.as_mut() {
+                    x.application_id = id4(i, 0);
+                    x.context_id = id4(i, 1);
+                }
+                if m.header.ecu_id.is_some() {
+                    m.header.ecu_id = Some(id4(i, 2));
+                }
+            } else if !large_pool {
                 if let Some(x) = m.extended_header.as_mut() {
                     x.application_id = ctx.rng.pick(&pool).clone();
                     x.context_id = ctx.rng.pick(&pool).clone();
